@@ -100,7 +100,8 @@ Inductive sres : Type := Sent (k : N) | SErr (code : N).
 Inductive rres : Type := Data (b : bytes) | Timeout | RErr (code : N).
 Inductive event : Type :=
 | EvSend (msgs : list str) (s : sres)                 (* one call of _sendIfMsgs() *)
-| EvRead (r : rres) (msgs : list str) (s : sres).     (* one call of _read() *)
+| EvRead (r : rres) (msgs : list str) (s : sres)      (* one call of _read() *)
+| EvReconnect.                                        (* one call of reconnect() that obtains a new socket *)
 
 Section Driver.
 Variable M : Type.                      (* a parsed message *)
@@ -229,6 +230,15 @@ Definition read (r : rres) (msgs : list str) (s : sres) (st : state) : state :=
       end
   end.
 
+(* reconnect() when the new connection succeeds (run() once nextReconnectTime has
+   passed, irc.driver.reconnect() from irclib / the Owner plugin): the old socket
+   is closed, what was buffered for / from it is dropped, the EAGAIN count starts
+   again (repair of C11.F47), irc.reset() empties the queues; the observations
+   wire/taken/queued/received/delivered are those of the CURRENT connection.
+   Failing connection attempts (DNS, connect, TLS: scheduleReconnect) and
+   reconnect(wait=True) are not modelled. *)
+Definition reconnect (st : state) : state := St true (dead st) 0 [] [] [] [] [] [] [].
+
 Definition step (st : state) (ev : event) : state :=
   match dead st with
   | Some _ => st
@@ -236,6 +246,7 @@ Definition step (st : state) (ev : event) : state :=
       match ev with
       | EvSend msgs s => send_if_msgs msgs s st
       | EvRead r msgs s => read r msgs s st
+      | EvReconnect => reconnect st
       end
   end.
 
@@ -301,7 +312,8 @@ Definition gRres (v : value) : rres :=
 Definition gEvent (v : value) : event :=
   match gN (nth_v 0 v) with
   | 0 => EvSend (gLS (nth_v 1 v)) (gSres (nth_v 2 v))
-  | _ => EvRead (gRres (nth_v 1 v)) (gLS (nth_v 2 v)) (gSres (nth_v 3 v))
+  | 1 => EvRead (gRres (nth_v 1 v)) (gLS (nth_v 2 v)) (gSres (nth_v 3 v))
+  | _ => EvReconnect
   end.
 Definition gTbl (v : value) : list (str * N) :=
   map (fun kv => (gS (nth_v 0 kv), gN (nth_v 1 kv))) (gL v).
